@@ -22,7 +22,10 @@ CFG = dict(
          "with a flow-offload statement into the abstract syntax (hard error on unknown tokens; the set name is tied to the "
          "set id the manager wrote through the nftables IP-set naming function).  For every workload update the REAL renderer's per-endpoint "
          "filter chains (WorkloadEndpointToIptablesChains) are rendered for its QoSControls and it is recorded whether a packet-rate or "
-         "connection-limit rule appears: the oracle requires that to coincide with the property's 'connection or packet rate limit'.  non-trivial = at some flush two endpoints "
+         "connection-limit rule appears: the oracle requires that to coincide with the property's 'connection or packet rate limit'.  Every call the manager makes is also "
+         "forwarded to the REAL felix/nftables.IPSets writing into knftables' in-memory fake; after each CompleteDeferredWork the driver "
+         "calls ApplyUpdates and lists the elements of the set THE RENDERED RULE NAMES: that programmed set must equal, as a sorted "
+         "duplicate-free list, the excluded addresses of the history so far.  non-trivial = at some flush two endpoints "
          "that need the hooks share an address, or an endpoint in the set lost its QoS feature by an update, or changed its "
          "addresses; distinct by (ip version, history, renderer configuration)",
     trusted=["Coq 8.16.1 kernel + vm_compute",
@@ -30,10 +33,12 @@ CFG = dict(
              "hands exactly the packets the rule matches to the flowtable",
              "hand-written model coq/theories/C41/Model.v tied to felix/dataplane/linux/flowtable_mgr.go and the offload rule of "
              "felix/rules/static.go by this correspondence run",
-             "Go driver harness/C41 (overlay build, tag verif): recording IPSetsDataplane, rule text -> AST grammar"],
+             "Go driver harness/C41 (overlay build, tag verif): recording IPSetsDataplane, rule text -> AST grammar",
+             "sigs.k8s.io/knftables Fake as the kernel's set store (the programmed set is read back from it)"],
     assumptions=["workload IPNetworks hold one address each (/32, /128: enforced by the v3 validator); host endpoint expected IPs carry "
                  "no mask; histories with multi-address nets are outside the proved domain (wf_history)",
-                 "an address is the numeric value of the member string (what the IP set layer canonicalises members to)",
+                 "an address is the numeric value of the member string (what the IP set layer canonicalises members to; the real "
+                 "nftables IP set layer is run and its programmed elements are compared with Spec.progs = support of the latest replacement)",
                  "HostEndpointUpdate always carries an Endpoint (the calc graph fills it; a nil one would panic the manager)",
                  "'already established' = conntrack state ESTABLISHED or RELATED, as felix/design/dataplane.md states the rule "
                  "(Felix accepts both before any policy in every endpoint chain); NEW/INVALID/UNTRACKED are never offloaded",
